@@ -8,6 +8,7 @@ import (
 	"fmt"
 	"os"
 	"strconv"
+	"strings"
 	"testing"
 
 	sdk "github.com/cosmos/cosmos-sdk/types"
@@ -294,3 +295,11 @@ func vRecordBool(label string, v bool)     { vCover(fmt.Sprintf("rec:%s=%v", lab
 func vRecordU64(label string, v uint64)    { vCover(fmt.Sprintf("rec:%s=%d", label, v)) }
 func vRecordString(label string, v string) { vCover(fmt.Sprintf("rec:%s=%x", label, v)) }
 func vRecordBytes(label string, v []byte)  { vCover(fmt.Sprintf("rec:%s=%x", label, v)) }
+
+// vAddrSpelling: the address as given, or its all-upper-case bech32 spelling (same account)
+func vAddrSpelling(site string, addr string) string {
+	if vNondetBool(site + ".upper") {
+		return strings.ToUpper(addr)
+	}
+	return addr
+}
